@@ -82,6 +82,29 @@ B("B60", "C14-R1", [(SD, '''            # Attractor data computed while the node
 B("B61", "C14-R1", [(SCC, '''    if not sd.node_data(attach_at)["expanded"] or sd.node_data(attach_at)["skipped"]:
         # Data computed''', '''    if sd.node_data(attach_at)["expanded"]:
         # Data computed''')], "attach: reset guarded by the wrong polarity")
+B("B305", "C10-F", [(SD, '''                if parent_pn is not None:
+                    base_pn = parent_pn
+                    percolate_space = node_space
+''', '''                if parent_pn is not None:
+                    percolate_space = {
+                        k: v for k, v in node_space.items() if k not in self.node_data(parent_id)["space"]
+                    }
+''')], "only the remainder of the parent's space is eliminated, but from the GLOBAL net (twin of the accepted remainder form)")
+B("B61c", "C14-R1", [(SCC, '''    if not sd.node_data(attach_at)["expanded"] or sd.node_data(attach_at)["skipped"]:
+        # Data computed while the node had no successors (or only the
+        # successors of a skip node) is no longer valid.
+        sd.node_data(attach_at)["attractor_seeds"] = None
+        sd.node_data(attach_at)["attractor_candidates"] = None
+        sd.node_data(attach_at)["attractor_sets"] = None
+    sd.node_data(attach_at)["expanded"] = True
+''', '''    attach_node = sd.node_data(attach_at)
+    attach_node["expanded"] = True
+    was_expanded = attach_node["expanded"]
+    if not was_expanded or attach_node["skipped"]:
+        attach_node["attractor_seeds"] = None
+        attach_node["attractor_candidates"] = None
+        attach_node["attractor_sets"] = None
+''')], "attach: the 'snapshot' of the flag is taken after the flag was raised (twin of the flag-snapshot reading)")
 B("B61b", "C14-R1", [(SCC, '''    if not sd.node_data(attach_at)["expanded"] or sd.node_data(attach_at)["skipped"]:
         # Data computed''', '''    if not sd.node_data(attach_at)["expanded"] and sd.node_data(attach_at)["skipped"]:
         # Data computed''')], "attach: reset only for nodes that are unexpanded AND skipped (never)")
